@@ -49,10 +49,10 @@ P['SMOKE'] = dict(disabled=True, level_text='', level_note='', jobs=[dict(name='
 
 P['C07'] = dict(
     level_text='The real mqtt_client (all of async_sender, publish_send_op, replies, client_service, autoconnect_stream, reconnect/connect ops) is executed symbolically against a stub socket/timer/resolver world: Receive Maximum of each connection is one 16-bit symbol, and every order of publish / write completion / broker ack / per-operation cancellation / connection loss + reconnect up to the step bound is explored. A wire monitor, independent of the client\'s quota counter, counts QoS>0 PUBLISH packets handed to the stream and not yet acknowledged.',
-    level_note='Bounds: <= 3 QoS 1 publishes, <= 1 total-cancellation, <= 1 reconnect, 7 (quick) / 9 (thorough) steps; external events happen at quiescent points (handler queue drained). Stub world (shadow/) replaces OS sockets, timers and resolver; writes complete atomically in this harness.',
+    level_note='Bounds: <= 3 publishes of QoS 1 or 2 (PUBREC succeeding or failing, PUBREL retransmitted after a reconnect counts), <= 1 total-cancellation, <= 1 reconnect, 7 (quick) / 9 (thorough) steps; external events happen at quiescent points (handler queue drained). Stub world (shadow/) replaces OS sockets, timers and resolver; writes complete atomically in this harness.',
     assumptions=['environment = shadow/vk_world.hpp: FIFO executor, virtual-time timers, stream socket and resolver completed by the harness', 'external events are injected only when the handler queue is empty'],
     jobs=[dict(name='receive_maximum', tu='harness/w_c07.cpp', entry='h_c07', engine='B', clock=True, defs_quick={'VK_STEPS': 7}, defs_thorough={'VK_STEPS': 9},
-               reach=['two-in-flight', 'acked', 'reconnected', 'a-publish-completed'], samples=10)])
+               reach=['two-in-flight', 'acked', 'reconnected', 'a-publish-completed', 'qos2-publish', 'pubcomp', 'failing-pubrec'], samples=10)])
 
 _pub_assume = ['environment = shadow/vk_world.hpp: FIFO executor, virtual-time timers, stream socket and resolver completed by the harness', 'external events are injected only when the handler queue is empty',
                'broker model: answers what it received (any listed reason code, any short form, any chunking), or sends one adversarial packet (unknown id, wrong type, inadmissible code, oversize property length); it never acknowledges the same packet twice']
